@@ -160,6 +160,8 @@ tree_api!(T32u32u16, AVLTreeMut, AVLTree, 4, 24, u32, u32, u16);
 tree_api!(T32u64u64, AVLTreeMut, AVLTree, 4, 24, u32, u64, u64);
 tree_api!(T32i64u64, AVLTreeMut, AVLTree, 4, 24, u32, i64, u64);
 tree_api!(T32logu8, AVLTreeMut, AVLTree, 4, 24, u32, LogKey, u8);
+tree_api!(T32a32u64, AVLTreeMut, AVLTree, 4, 24, u32, A32, u64);
+tree_api!(T8a32a32, U8AVLTreeMut, U8AVLTree, 1, 8, u8, A32, A32);
 
 /// Independent reading of the documented format (harness-side; used for the
 /// implementation-vs-oracle checks and the coverage histogram — the Lean
@@ -200,11 +202,11 @@ pub fn decode<A: TreeApi>(bytes: &[u8]) -> Decoded {
     for s in 0..slots {
         let b = &bytes[A::HDR + s * rsz..A::HDR + (s + 1) * rsz];
         let r = |j: usize| le(&b[j * iw..(j + 1) * iw]) as usize;
-        let mut key = le(&b[koff..koff + ks]) as i128;
+        let mut key = le(&b[koff..koff + ks.min(15)]) as i128;
         if ksg && ks < 16 && (key >> (8 * ks - 1)) & 1 == 1 {
             key -= 1i128 << (8 * ks);
         }
-        recs.push((r(0), r(1), r(2), key, le(&b[voff..voff + vs]) as i128));
+        recs.push((r(0), r(1), r(2), key, le(&b[voff..voff + vs.min(15)]) as i128));
     }
     Decoded { root: w(0), size: w(1), cap: w(2), flh: w(3), seq: w(4), slots, recs }
 }
